@@ -583,6 +583,36 @@ func prepareExec(cmd *sx.Sexp, files map[string]string) *preparedExec {
 }
 
 // run executes the entry template once and returns the observation and the direct-oracle verdict
+// failingWriter accepts `left` bytes and then fails every Write with a short count
+type failingWriter struct{ left int }
+
+func (w *failingWriter) Write(p []byte) (int, error) {
+	if len(p) <= w.left {
+		w.left -= len(p)
+		return len(p), nil
+	}
+	n := w.left
+	w.left = 0
+	return n, fmt.Errorf("writer closed")
+}
+
+// runInto executes the prepared program into w and ignores the outcome
+func (pe *preparedExec) runInto(cmd *sx.Sexp, w io.Writer) {
+	if pe.t == nil {
+		return
+	}
+	vars := jet.VarMap{}
+	for _, g := range cmd.Xs[6].Xs {
+		vars.Set(string(g.Xs[0].B), decodeVal(g.Xs[1]))
+	}
+	if len(cmd.Xs[6].Xs) == 0 {
+		vars = nil
+	}
+	saved := probeLog
+	executeContained(pe.t, w, vars, decodeVal(cmd.Xs[7]))
+	probeLog = saved
+}
+
 func (pe *preparedExec) run(cmd, meta *sx.Sexp) (*sx.Sexp, string) {
 	if pe.t == nil {
 		if meta != nil {
